@@ -44,52 +44,95 @@ def run(ctx):
         ok, wit = vote.must_pass([0], {c.block for c in sets if describe_operand(vote, c.args[1]) == "True"})
         r.check(ok and bool(sets), "vote/voted:=true", where(vote), "voted.set(true) on every path", "a path of vote() leaves voted unset: %s" % wit)
 
-    with ctx.rule("C17.R2", "T1+T7", "rescind(): flags only written by compare_exchange(observed, observed & !flag); Unanimous guarded by an observation", floor=4) as r:
-        atom = [c for c in resc.calls if ".flags" in describe_operand(resc, c.args[0]) and "Atomic" in (c.callee.get("self_ty") or c.defpath)]
-        writes = [c for c in atom if c.name not in ("load",)]
-        for c in writes:
-            r.check(c.name in ("compare_exchange", "compare_exchange_weak"), "rescind/write-is-cas/" + c.name, c.loc(), "flags written with compare_exchange", "rescind writes flags with %s" % c.name)
-        cas = [c for c in writes if c.name.startswith("compare_exchange")]
-        if len(cas) != 2:
-            raise AnchorMissing("rescind: expected 2 compare_exchange sites (two-party fast path + general loop), found %d" % len(cas))
-        for c in cas:
-            cur = describe_operand(resc, c.args[1])
-            new = describe_operand(resc, c.args[2])
-            if cur.startswith("load("):
-                r.check(new.startswith("BitAnd(load(") and new.endswith("not(self.flag))"), "rescind/general/cas-operands", c.loc(), "CAS(current, current & !flag)", "general path CAS(%s, %s)" % (cur, new))
-                g = guards(resc, c.block)
-                r.check(any(d.startswith("Eq(load(") and "bitor(self.inverse, self.flag)" in d and l == "false" for d, l, _ in g), "rescind/general/refuse-when-unanimous", c.loc(),
-                        "the CAS is attempted only when current != inverse | flag", "the CAS may clear a bit after unanimity was reached")
-            else:
-                r.check(cur.endswith(".flag") and new == "0", "rescind/two-party/cas-operands", c.loc(), "two-party CAS(flag, INIT)", "two-party CAS(%s, %s)" % (cur, new))
-                g = guards(resc, c.block)
-                r.check(any("Lt(self.inverse, 3)" == d and l == "true" for d, l, _ in g), "rescind/two-party/only-for-two", c.loc(), "fast path taken only when inverse < TWO_VOTERS_LIM")
+    def rescind_updates():
+        """Atomic read-modify-write sites of rescind(): (call, success_edge_block, failure_edge_block, kind)."""
+        out = []
+        for c in resc.calls:
+            if not (c.args and ".flags" in describe_operand(resc, c.args[0]) and "Atomic" in (c.callee.get("self_ty") or c.defpath)):
+                continue
+            if c.name in ("compare_exchange", "compare_exchange_weak"):
+                ok_edge = err_edge = None
+                for t in resc.calls:
+                    if t.name in ("is_ok", "is_err") and t.args and any(s_[0] == "call" and s_[1] is c for s_ in resc.sources(t.args[0])):
+                        be = resc.bool_edges(t)
+                        if be:
+                            ok_edge, err_edge = (be[0], be[1]) if t.name == "is_ok" else (be[1], be[0])
+                if ok_edge is None:
+                    for si in resc.result_switches(c):
+                        ve = resc.variant_edges(si["block"])
+                        if ve and "Ok" in ve:
+                            ok_edge, err_edge = ve["Ok"], ve.get("Err")
+                out.append((c, ok_edge, err_edge, "cas"))
+            elif c.name == "fetch_update":
+                ok_edge = err_edge = None
+                for si in resc.result_switches(c):
+                    ve = resc.variant_edges(si["block"])
+                    if ve and "Ok" in ve:
+                        ok_edge, err_edge = ve["Ok"], ve.get("Err")
+                out.append((c, ok_edge, err_edge, "fetch_update"))
+            elif c.name != "load":
+                out.append((c, None, None, "other"))
+        return out
+
+    with ctx.rule("C17.R2", "T1+T7", "rescind(): flags only changed by a conditional RMW that clears exactly the own bit and refuses once unanimous", floor=4) as r:
+        ups = rescind_updates()
+        if len(ups) != 2:
+            raise AnchorMissing("rescind: expected 2 atomic update sites (two-party fast path + general path), found %d" % len(ups))
+        for c, ok_e, err_e, kind in ups:
+            g = guards(resc, c.block)
+            two = any(d == "Lt(self.inverse, 3)" and l == "true" for d, l, _ in g)
+            path = "two-party" if two else "general"
+            r.check(kind in ("cas", "fetch_update") and ok_e is not None, "rescind/%s/write-is-conditional-rmw" % path, c.loc(), "flags changed with %s whose outcome is examined" % c.name,
+                    "rescind writes flags with %s (not a conditional read-modify-write whose result is examined)" % c.name)
+            if kind == "cas":
+                cur = describe_operand(resc, c.args[1])
+                new = describe_operand(resc, c.args[2])
+                if two:
+                    r.check(cur.endswith(".flag") and new == "0", "rescind/two-party/cas-operands", c.loc(), "two-party CAS(flag, INIT)", "two-party CAS(%s, %s)" % (cur, new))
+                else:
+                    r.check(cur.startswith("load(") and new.startswith("BitAnd(load(") and new.endswith("not(self.flag))"), "rescind/general/update-clears-own-bit", c.loc(), "CAS(current, current & !flag)", "general path CAS(%s, %s)" % (cur, new))
+                    r.check(any(d.startswith("Eq(load(") and "bitor(self.inverse, self.flag)" in d and l == "false" for d, l, _ in g), "rescind/general/refuse-when-unanimous", c.loc(),
+                            "the CAS is attempted only when current != inverse | flag", "the CAS may clear a bit after unanimity was reached")
+            elif kind == "fetch_update":
+                cls = [rt.body(cd) for cd in c.callee.get("closure_args", ()) if cd in rt.by_def]
+                okc = False
+                refuse = False
+                for cb in cls:
+                    for i2, j2, p2, rv2, l2 in cb.assigns():
+                        d2 = describe_rvalue(cb, rv2)
+                        if d2.startswith("Option::Some(BitAnd(") and "not(" in d2 and "flag" in d2:
+                            okc = True
+                            refuse = refuse or any(dd.startswith("Eq(") and ll == "false" for dd, ll, _ in guards(cb, i2))
+                r.check(okc, "rescind/%s/update-clears-own-bit" % path, c.loc(), "the update closure computes current & !flag", "the fetch_update closure does not clear exactly the own bit")
+                if not two:
+                    r.check(refuse, "rescind/general/refuse-when-unanimous", c.loc(), "the update closure refuses (None) when current == unanimity", "the update may clear a bit after unanimity was reached")
+            if two:
+                r.check(True, "rescind/two-party/only-for-two", c.loc(), "fast path taken only when inverse < TWO_VOTERS_LIM")
         for blk, line in ret_blocks(resc, "VoteResult", "Unanimous"):
             g = guards(resc, blk)
-            good = any((d.startswith("Eq(load(") and l == "true") or (d.startswith("is_err(compare_exchange(") and l == "true") or (d.startswith("is_ok(compare_exchange(") and l == "false") for d, l, _ in g)
-            r.check(good, "rescind/unanimous-guarded", resc.loc(line), "Unanimous is returned only after observing flags (equality with the mask, or a failed CAS)", "Unanimous returned without observing flags")
+            good = any((d.startswith("Eq(load(") and l == "true") or (d.startswith("is_err(compare_exchange(") and l == "true") or (d.startswith("is_ok(compare_exchange(") and l == "false")
+                       or (d.startswith("disc(fetch_update(") and l == "Err") or (d.startswith("disc(compare_exchange") and l == "Err") for d, l, _ in g)
+            r.check(good, "rescind/unanimous-guarded", resc.loc(line), "Unanimous is returned only after observing flags (equality with the mask, or a refused update)", "Unanimous returned without observing flags")
         g0 = [c for c in resc.calls if c.name == "get" and ".voted" in describe_operand(resc, c.args[0])]
-        r.check(bool(g0) and all(any(d == "get(self.voted)" and l == "true" for d, l, _ in guards(resc, c.block)) for c in atom), "rescind/only-if-voted", where(resc),
+        r.check(bool(g0) and all(any(d == "get(self.voted)" and l == "true" for d, l, _ in guards(resc, c.block)) for c, _, _, _ in ups), "rescind/only-if-voted", where(resc),
                 "flags is touched only on the voted == true edge", "rescind touches flags without having voted")
 
     with ctx.rule("C17.R3", "T3", "`voted` mirrors the voter's own bit: cleared on every successful rescind", floor=2) as r:
-        pend = ret_blocks(resc, "VoteResult", "UnanimityPending")
         clears = {c.block for c in resc.calls if c.name in ("set", "replace") and ".voted" in describe_operand(resc, c.args[0]) and describe_operand(resc, c.args[1]) == "False"}
         n = 0
-        for blk, line in pend:
-            g = guards(resc, blk)
-            succ_cas = any((d.startswith("is_ok(compare_exchange(") and l == "true") or (d.startswith("is_err(compare_exchange(") and l == "false") for d, l, _ in g)
-            if not succ_cas:
+        for c, ok_e, err_e, kind in rescind_updates():
+            if ok_e is None:
                 continue
             n += 1
+            g = guards(resc, c.block)
             path = "two-party" if any(d == "Lt(self.inverse, 3)" and l == "true" for d, l, _ in g) else "general"
-            dom = any(resc.dominates(cb, blk) for cb in clears)
-            r.check(dom, "rescind/%s/success=>voted:=false" % path, resc.loc(line),
+            ok, wit = resc.must_pass([ok_e], clears)
+            r.check(ok and bool(clears), "rescind/%s/success=>voted:=false" % path, c.loc(),
                     "a successful rescind clears `voted`",
                     "a successful rescind leaves voted == true although the voter's bit is now clear: a later drop does not vote (the others wait for ever) and, on the "
                     "two-party path, a second rescind reports Unanimous on mere CAS failure")
         if n < 2:
-            raise AnchorMissing("rescind: expected 2 successful-CAS return paths, found %d" % n)
+            raise AnchorMissing("rescind: expected 2 update sites with an examined result, found %d" % n)
 
     with ctx.rule("C17.R4", "T2", "Drop for Voter votes when no vote is outstanding", floor=1) as r:
         d = ctx.saw(rt.fn(name="drop", self_adt=V, trait="core::ops::drop::Drop"))
